@@ -44,10 +44,11 @@ def analyse(ctx, prog, chk):
     chk.used_program(prog)
     fam = family(prog)
     ns = expsib.rule_sm_sign(ctx, prog, chk, fam, FAM)
+    nb = expsib.rule_loop_bits(ctx, prog, chk, fam)
     nr = alias.rule_out_rbw(ctx, prog, chk, lambda fn: fn.rfile.startswith("src/epx/"), re.compile(r"^ep\d+_t\b"))
     na = alias.rule(ctx, prog, chk, lambda fn: fn.rfile.startswith("src/epx/"), POINT_ALIAS_OK, points=True)[0]
     nc = c02.rule_const_in(ctx, prog, chk, prefix=("src/epx/",))
-    return {"sign": ns, "rbw": nr, "const": nc, "palias": na}
+    return {"sign": ns, "rbw": nr, "const": nc, "palias": na, "bits": nb}
 
 
 def selfcheck(ctx, prog, chk):
@@ -57,6 +58,7 @@ def selfcheck(ctx, prog, chk):
 def run(ctx, chk):
     c = analyse(ctx, ctx.program("BASE"), chk)
     chk.floor("SM-SIGN", "scalar parameters of the multiplication siblings", c["sign"], 100)
+    chk.floor("LOOP-BITS", "bit scans of scalars", c["bits"], 4)
     chk.floor("OUT-RBW", "output points of functions that also take an input point", c["rbw"], 200)
     chk.floor("ALIAS-RW", "output/input pairs of single points", c["palias"], 200)
     chk.floor("CONST-IN", "const pointer parameters of the module", c["const"], 400)
